@@ -138,13 +138,35 @@ def apply_mutant(copy, m):
             f.write(s.replace(e["old"], e["new"]))
 
 
+def _scratch_worktree():
+    """A detached git worktree of REPO's HEAD plus its uncommitted ECAgent/ changes (for patches: allows 3-way apply)."""
+    base = tempfile.mkdtemp(prefix="ecagent-verif-", dir="/var/tmp")
+    wt = os.path.join(base, "wt")
+    cp = subprocess.run(["git", "-C", core.REPO, "worktree", "add", "-q", "--detach", wt, "HEAD"], capture_output=True, text=True)
+    if cp.returncode != 0:
+        shutil.rmtree(base, ignore_errors=True)
+        return None, None
+    shutil.rmtree(os.path.join(wt, "ECAgent"))
+    shutil.copytree(os.path.join(core.REPO, "ECAgent"), os.path.join(wt, "ECAgent"), ignore=shutil.ignore_patterns("__pycache__"))
+    return base, wt
+
+
 def _one_mutant(args):
     m, seed = args
-    copy = _scratch_copy()
-    out_dir = os.path.join(copy, "_out")
+    base = None
+    if "patch" in m:
+        base, copy = _scratch_worktree()
+    if base is None:
+        copy = _scratch_copy()
+    out_dir = os.path.join(base or copy, "_out")
     try:
         try:
-            apply_mutant(copy, m)
+            if base is not None:
+                cp = subprocess.run(["git", "apply", "--3way", m["patch"]], cwd=copy, capture_output=True, text=True)
+                if cp.returncode != 0 or "with conflicts" in (cp.stdout + cp.stderr):
+                    raise core.HarnessError(f"patch {m['patch']} does not apply (3-way): {(cp.stdout + cp.stderr)[-300:]}")
+            else:
+                apply_mutant(copy, m)
         except core.HarnessError as e:
             return {"name": m["name"], "property": m["property"], "source": m["source"], "exit": 2, "caught": False,
                     "expect": m.get("expect", "caught"), "summary": f"DOES NOT APPLY: {e}"[:300], "wall_s": 0.0,
@@ -158,7 +180,11 @@ def _one_mutant(args):
                 "summary": (kind[0] if kind else log.strip().splitlines()[-1] if log.strip() else "")[:300],
                 "wall_s": round(time.time() - t0, 1), "note": m.get("note", "")}
     finally:
-        shutil.rmtree(copy, ignore_errors=True)
+        if base is not None:
+            subprocess.run(["git", "-C", core.REPO, "worktree", "remove", "--force", copy], capture_output=True)
+            shutil.rmtree(base, ignore_errors=True)
+        else:
+            shutil.rmtree(copy, ignore_errors=True)
 
 
 def sensitivity(props, seed, a):
